@@ -301,6 +301,9 @@ def run(F, R, tier):
         if R.anchor("SymbolTable::new_enclosed", ne):
             t = H.render(H.body_of(ne))
             R.ob("slot-provenance", "an enclosed symbol table starts with no definitions", "num_definitions" not in t or "num_definitions: 0" in t, t[:160], F.loc(ne), nontrivial=False)
+    from .lib import emit as _E
+    _E.num_locals_rule(F, R, "compile_function_literal", "a function's frame reserves one slot per parameter and local of its own scope")
+    _E.num_locals_rule(F, R, "compile_filter_statement", "a filter's frame reserves one slot per local of its own scope")
     # ---- (v) rejections -----------------------------------------------------------------------------------------------------------------------
     for ctx in ("main", "filter", "fn"):
         r = res["stmt"].get(("Return", ctx))
@@ -327,6 +330,26 @@ def run(F, R, tier):
     cs_adt = F.adts.get("compiler::CompilationScope")
     R.ob("loop-stack-per-scope", "loop_stack is a field of CompilationScope (a function or filter body starts with none)",
          bool(cs_adt) and any(fl.get("name") == "loop_stack" for v in cs_adt.get("variants", []) for fl in v.get("fields", [])), "")
+    # ---- linked rule instances: the refinements of this property decided by their own checks ---------------------------------
+    # C02 is the umbrella (compiled behaviour = reference semantics); control flow (C05), truthiness (C06) and the
+    # operator model (C09) are its refinements.  Their rule instances are evaluated in this run; one that fails is a
+    # violation of C02 as well (their recorded known findings stay with their own property).
+    import importlib
+    from .lib import core as _core
+    known, _ = _core.load_known()
+    for lp in ("C05", "C06", "C09"):
+        try:
+            mod = importlib.import_module("rules.%s" % lp.lower())
+            R2 = _core.Report(lp)
+            mod.run(F, R2, tier)
+        except Exception as e:  # fail closed
+            R.ob("linked-check", "%s could be evaluated" % lp, False, "%s: %s" % (type(e).__name__, e))
+            continue
+        bad = [o for o in R2.obls if not o.ok and (lp, o.rule, o.key) not in known]
+        R.ob("linked-check", "%s: all %d rule instances hold" % (lp, len(R2.obls)), not bad, "%d failing" % len(bad), nontrivial=False)
+        for o in bad[:12]:
+            R.ob("linked:%s:%s" % (lp, o.rule), o.key, False, o.detail, o.loc)
+        R.count("linked rule instances evaluated (%s)" % lp, len(R2.obls))
     # classification of all CompileError sites
     with open(os.path.join(factsmod.VERIF, "tables", "compile_errors.json")) as fh:
         table = json.load(fh)["errors"]
